@@ -128,7 +128,17 @@ def gen_faults(tier, seed):
     for pieces in range(0, 12 if tier == "quick" else 40):
         g, inbound, cl = base(Rng(1), pieces)
         g.op("ev 1")
-        g.op("wscript " + " ".join(["w:%d" % rng.choice([1, 3, 7, 20]) for _ in range(pieces)] + [ERR_TOKENS[pieces % len(ERR_TOKENS)]]))
+        # the pieces taken before the failing call stay below what is buffered (>= 60 bytes: two
+        # Channel.Open frames, a Basic.Consume, a Queue.Declare), so the failing call is always reached
+        ws, tot = [], 0
+        for _ in range(pieces):
+            k = rng.choice([1, 3, 7, 20])
+            if tot + k > 45:
+                k = 1
+            if tot + k > 45:
+                break
+            ws.append("w:%d" % k); tot += k
+        g.op("wscript " + " ".join(ws + [ERR_TOKENS[pieces % len(ERR_TOKENS)]]))
         g.op("ev stream w" if pieces % 2 else "write")
         epilogue(g)
         n += 1
